@@ -13,6 +13,7 @@ from .. import nf, lib
 from ..selftest import Mutant, Benign
 from . import _c06_common as cm
 from . import _c06_steps as steps_mod
+from . import _c06_pad as pad_mod
 
 ID = 'C06'
 MK = 'mitxgraders/helpers/munkres.py'
@@ -30,7 +31,8 @@ EXPLANATION = (
     "assignment in compute) -- so a solve is a function of its argument only and reuse of a solver object cannot see an "
     "earlier solve; (D3, NF/TABLE) results are read for rows < number of "
     "rows of the argument and columns < its width where marked == 1 and emitted as (row, col); the padding value is "
-    "a small finite number; the dispatch table has keys 1..6 bound to the six step methods and every step hands "
+    "a small finite number and pad_matrix returns max(r, c) rows of length max(r, c) for an r x c argument (abstract "
+    "interpretation over symbolic sizes in the cases r<c, r=c, r>c); the dispatch table has keys 1..6 bound to the six step methods and every step hands "
     "control to exactly the successors of the Munkres flow chart (1->2, 2->3, 3->4|done, 4->5|6, 5->3, 6->4), 'done' "
     "only when the number of covered columns reaches n; (D4, NF/TABLE by per-cell evaluation) every step equals the "
     "reviewed textbook Hungarian step modulo the rewrite theory: the loop bodies of steps 1, 2, 3, 6, __find_smallest, "
@@ -73,7 +75,7 @@ def solver_rules(r, idx):
 
 def d4_steps(ctx, idx):
     r = ctx.rule('D4.STEPS', 'each step of the solver equals the textbook Hungarian step (per-cell effect tables, '
-                 'full sweeps, no skipped adjustment)', floor=36)
+                 'full sweeps, no skipped adjustment)', floor=37)
     with r:
         steps_mod.check_steps(r, idx)
 
@@ -95,13 +97,115 @@ def _step_table(idx):
     for fi in cands:
         selfn = fi.params[0] if fi.params else None
         for n in walk_own(fi.node):
-            if isinstance(n, ast.Dict) and n.keys and all(isinstance(k, ast.Constant) and isinstance(k.value, int) for k in n.keys) \
-                    and all(cm.is_self_attr(v, selfn) for v in n.values):
-                found.append((fi, n))
+            t = _fold_step_table(n, selfn, ci.name)
+            if t is not None:
+                found.append((fi, n, t))
+    # a generated table may contain the literal/inner forms again (e.g. the tuple inside dict(enumerate(...))): keep outermost
+    found = [x for x in found if not any(x[1] is not y[1] and any(x[1] is z for z in ast.walk(y[1])) for y in found)]
     if len(found) != 1:
         raise AnalysisError('Munkres.compute: expected one step dispatch table, found %d' % len(found))
-    fi, t = found[0]
-    return fi, t, {k.value: v.attr for k, v in zip(t.keys, t.values)}
+    fi, t, steps = found[0]
+    return fi, t, steps
+
+
+def _unmangle(name, cls):
+    pre = '_%s__' % cls.lstrip('_')
+    return '__' + name[len(pre):] if name.startswith(pre) else name
+
+
+def _fold_step_table(n, selfn, cls):
+    """{int: method name} if expression n is a step dispatch table in one of the closed forms:
+    {1: self.__step1, ...};  {k: getattr(self, '_Munkres__step%d' % k) for k in range(a, b)} (also .format / f-string);
+    dict(enumerate((self.__step1, ...), start=a));  dict(zip(range(a, b), (self.__step1, ...)))."""
+    def int_range(e):
+        if cm.is_call_to(e, 'range') and 1 <= len(e.args) <= 2 and all(isinstance(a, ast.Constant) and isinstance(a.value, int) for a in e.args):
+            vals = [a.value for a in e.args]
+            return list(range(*vals))
+        return None
+
+    def meths(e):
+        if isinstance(e, (ast.Tuple, ast.List)) and e.elts and all(cm.is_self_attr(v, selfn) for v in e.elts):
+            return [v.attr for v in e.elts]
+        return None
+    if isinstance(n, ast.Dict) and n.keys and all(isinstance(k, ast.Constant) and isinstance(k.value, int) for k in n.keys) \
+            and all(cm.is_self_attr(v, selfn) for v in n.values):
+        return {k.value: v.attr for k, v in zip(n.keys, n.values)}
+    if isinstance(n, ast.DictComp) and len(n.generators) == 1 and not n.generators[0].ifs and isinstance(n.generators[0].target, ast.Name):
+        g = n.generators[0]
+        ks = int_range(g.iter)
+        kv = g.target.id
+        if ks is None or not cm.is_name(n.key, kv):
+            return None
+        v = n.value
+        if not (cm.is_call_to(v, 'getattr', 2) and cm.is_name(v.args[0], selfn)):
+            return None
+        out = {}
+        for k in ks:
+            name = _fold_str(v.args[1], {kv: k})
+            if name is None:
+                return None
+            out[k] = _unmangle(name, cls)
+        return out
+    if cm.is_call_to(n, 'dict', 1) and not n.keywords:
+        a = n.args[0]
+        if cm.is_call_to(a, 'enumerate') and a.args:
+            ms = meths(a.args[0])
+            start = lib.get_kw(a, 'start', 1)
+            st = 0 if start is None else (start.value if isinstance(start, ast.Constant) and isinstance(start.value, int) else None)
+            if ms is not None and st is not None:
+                return {st + i: m for i, m in enumerate(ms)}
+        if cm.is_call_to(a, 'zip', 2):
+            ks, ms = int_range(a.args[0]), meths(a.args[1])
+            if ks is not None and ms is not None and len(ks) == len(ms):
+                return dict(zip(ks, ms))
+    return None
+
+
+def _fold_str(e, env):
+    """Constant-fold a string built from constants and the integer variables in env ('%' formatting, .format, f-string, +)."""
+    def val(x):
+        if isinstance(x, ast.Constant):
+            return x.value
+        if isinstance(x, ast.Name) and x.id in env:
+            return env[x.id]
+        if isinstance(x, ast.Tuple):
+            vs = [val(y) for y in x.elts]
+            return None if any(v is None for v in vs) else tuple(vs)
+        if isinstance(x, ast.BinOp) and isinstance(x.op, ast.Mod):
+            l, rr = val(x.left), val(x.right)
+            try:
+                return l % rr if isinstance(l, str) and rr is not None else None
+            except Exception:
+                return None
+        if isinstance(x, ast.BinOp) and isinstance(x.op, ast.Add):
+            l, rr = val(x.left), val(x.right)
+            return l + rr if isinstance(l, str) and isinstance(rr, str) else None
+        if isinstance(x, ast.JoinedStr):
+            parts = []
+            for v in x.values:
+                if isinstance(v, ast.Constant):
+                    parts.append(str(v.value))
+                elif isinstance(v, ast.FormattedValue) and v.format_spec is None and v.conversion == -1:
+                    pv = val(v.value)
+                    if pv is None:
+                        return None
+                    parts.append(str(pv))
+                else:
+                    return None
+            return ''.join(parts)
+        if isinstance(x, ast.Call) and isinstance(x.func, ast.Attribute) and x.func.attr == 'format' and not x.keywords:
+            f = val(x.func.value)
+            args = [val(a) for a in x.args]
+            try:
+                return f.format(*args) if isinstance(f, str) and None not in args else None
+            except Exception:
+                return None
+        if cm.is_call_to(x, 'str', 1):
+            v = val(x.args[0])
+            return None if v is None else str(v)
+        return None
+    v = val(e)
+    return v if isinstance(v, str) else None
 
 
 def _dispatch_site(idx):
@@ -593,7 +697,7 @@ def init_body(r, idx):
 # ------------------------------------------------------------------------------- D3
 def d3_results(ctx, idx):
     r = ctx.rule('D3.RESULT', 'pairs are read inside the original rows/columns where marked == 1; padding value is a '
-                 'small finite number; the step table is exhaustive and follows the Munkres flow chart', floor=25)
+                 'small finite number; the step table is exhaustive and follows the Munkres flow chart', floor=28)
     with r:
         results_body(r, idx)
 
@@ -679,8 +783,9 @@ def results_body(r, idx):
         r.check(not ex_, 'Munkres.compute: result loop over `%s`' % ('rows' if var == ex.row_idx.id else 'columns' if var == ex.col_idx.id else var),
                 'visits every index', 'the result loop is left early (%s): starred zeros after that point are not reported'
                 % (short(ex_[0]) if ex_ else ''), lib.loc(comp, node))
-    # padding value
+    # padding value and squareness of the padded matrix (symbolic sizes, cases r<c, r=c, r>c)
     _pad_value(r, idx, comp, selfn)
+    pad_mod.check_pad_shape(r, idx)
     # step table
     _step_flow(r, idx)
 
@@ -872,6 +977,20 @@ MUTANTS = [
     Mutant('erase-primes-only-covered-rows', MK, "        for i in range(self.n):\n            for j in range(self.n):\n                if self.marked[i][j] == 2:",
            "        for i in range(self.n):\n            if not self.row_covered[i]:\n                continue\n            for j in range(self.n):\n                if self.marked[i][j] == 2:", 'D4'),
     Mutant('clear-covers-rows-of-covered-columns', MK, "            self.row_covered[i] = False\n            self.col_covered[i] = False", "            if self.col_covered[i]:\n                self.row_covered[i] = False\n            self.col_covered[i] = False", 'D4'),
+    Mutant('table-generated-off-by-one', MK, "        steps = { 1 : self.__step1,\n                  2 : self.__step2,\n                  3 : self.__step3,\n                  4 : self.__step4,\n                  5 : self.__step5,\n                  6 : self.__step6 }\n",
+           "        steps = dict(enumerate((self.__step1, self.__step2, self.__step3, self.__step4, self.__step5, self.__step6)))\n", 'D3'),
+    Mutant('scan-as-next-wrong-mark', MK, "        col = -1\n        for j in range(self.n):\n            if self.marked[row][j] == 2:\n                col = j\n                break\n\n        return col",
+           "        return next((j for j in range(self.n) if self.marked[row][j] == 1), -1)", 'D4'),
+    Mutant('find-smallest-as-min-or', MK, "        minval = sys.maxsize\n        for i in range(self.n):\n            for j in range(self.n):\n                if (not self.row_covered[i]) and (not self.col_covered[j]):\n                    if self.C[i][j] is not DISALLOWED and minval > self.C[i][j]:\n                        minval = self.C[i][j]\n        return minval",
+           "        uncovered = [self.C[i][j] for i in range(self.n) for j in range(self.n)\n                     if ((not self.row_covered[i]) or (not self.col_covered[j])) and self.C[i][j] is not DISALLOWED]\n        return min([sys.maxsize] + uncovered)", 'D4'),
+    Mutant('pad-size-ignores-columns', MK, "            max_columns = max(max_columns, len(row))\n", "            pass\n", 'D3'),
+    Mutant('pad-size-not-updated', MK, "        total_rows = max(max_columns, total_rows)\n", "", 'D3'),
+    Mutant('pad-rows-never-extended', MK, "            if total_rows > row_len:\n                # Row too short. Pad it.", "            if not total_rows > row_len:\n                # Row too short. Pad it.", 'D3'),
+    Mutant('pad-rows-not-added', MK, "        while len(new_matrix) < total_rows:\n            new_matrix += [[pad_value] * total_rows]\n", "", 'D3'),
+    Mutant('pad-new-rows-short', MK, "            new_matrix += [[pad_value] * total_rows]\n", "            new_matrix += [[pad_value] * len(matrix)]\n", 'D3'),
+    Mutant('pad-list-divided', MK, "                new_row += [pad_value] * (total_rows - row_len)\n", "                new_row += [pad_value] / (total_rows - row_len)\n", 'D3'),
+    Mutant('step6-counter-cancels', MK, "                if self.row_covered[i]:\n                    self.C[i][j] += minval\n                    events += 1\n", "                if self.row_covered[i]:\n                    self.C[i][j] += minval\n", 'D4'),
+    Mutant('step6-counter-correction-inverted', MK, "                if self.row_covered[i] and not self.col_covered[j]:\n                    events -= 2", "                if not (self.row_covered[i] and not self.col_covered[j]):\n                    events -= 2", 'D4'),
     Mutant('step1-subtracts-max', MK, "            minval = min(vals)", "            minval = max(vals)", 'D4'),
     Mutant('step1-subtracts-twice', MK, "                    self.C[i][j] -= minval\n        return 2", "                    self.C[i][j] -= 2 * minval\n        return 2", 'D4'),
     Mutant('step2-covers-not-cleared', MK, "        self.__clear_covers()\n        return 3\n\n    def __step3", "        return 3\n\n    def __step3", 'D4'),
@@ -920,6 +1039,24 @@ BENIGN = [
     Benign('path-buffer-pairs', MK, "        self.path = self.__make_matrix(self.n * 2, 0)\n", "        self.path = [[0, 0] for i in range(2 * self.n)]\n"),
     Benign('clear-covers-redundant-test', MK, "            self.row_covered[i] = False\n            self.col_covered[i] = False", "            self.row_covered[i] = False\n            if not self.row_covered[i]:\n                self.col_covered[i] = False"),
     Benign('clear-covers-guarded', MK, "            self.row_covered[i] = False\n            self.col_covered[i] = False", "            if self.row_covered[i]:\n                self.row_covered[i] = False\n            self.col_covered[i] = False"),
+    Benign('table-generated-getattr', MK, "        steps = { 1 : self.__step1,\n                  2 : self.__step2,\n                  3 : self.__step3,\n                  4 : self.__step4,\n                  5 : self.__step5,\n                  6 : self.__step6 }\n",
+           "        steps = {number: getattr(self, '_Munkres__step%d' % number) for number in range(1, 7)}\n"),
+    Benign('table-generated-enumerate', MK, "        steps = { 1 : self.__step1,\n                  2 : self.__step2,\n                  3 : self.__step3,\n                  4 : self.__step4,\n                  5 : self.__step5,\n                  6 : self.__step6 }\n",
+           "        steps = dict(enumerate((self.__step1, self.__step2, self.__step3, self.__step4, self.__step5, self.__step6), start=1))\n"),
+    Benign('scan-as-next', MK, "        col = -1\n        for j in range(self.n):\n            if self.marked[row][j] == 2:\n                col = j\n                break\n\n        return col",
+           "        return next((j for j in range(self.n) if self.marked[row][j] == 2), -1)"),
+    Benign('find-smallest-as-min', MK, "        minval = sys.maxsize\n        for i in range(self.n):\n            for j in range(self.n):\n                if (not self.row_covered[i]) and (not self.col_covered[j]):\n                    if self.C[i][j] is not DISALLOWED and minval > self.C[i][j]:\n                        minval = self.C[i][j]\n        return minval",
+           "        uncovered = [self.C[i][j] for i in range(self.n) for j in range(self.n)\n                     if (not self.row_covered[i]) and (not self.col_covered[j]) and self.C[i][j] is not DISALLOWED]\n        return min([sys.maxsize] + uncovered)"),
+    Benign('pad-new-rows-by-column-count', MK, "            new_matrix += [[pad_value] * total_rows]\n", "            new_matrix += [[pad_value] * max_columns]\n"),
+    Benign('step3-done-as-8', MK, "            step = 7 # done", "            step = 8 # done"),
+    Benign('step4-dead-initialisers', MK, "        step = 0\n        done = False\n        row = 0\n        col = 0\n        star_col = -1\n", "        done = False\n        row = 0\n        col = 0\n"),
+    Benign('pad-width-seed-one', MK, "        max_columns = 0\n        total_rows = len(matrix)\n", "        max_columns = 1\n        total_rows = len(matrix)\n"),
+    Benign('step6-counter-all-negative', MK, "                if self.row_covered[i] and not self.col_covered[j]:\n                    events -= 2", "                if self.row_covered[i] or not self.col_covered[j]:\n                    events -= 2"),
+    Benign('pad-guard-non-strict', MK, "            if total_rows > row_len:\n                # Row too short. Pad it.", "            if total_rows >= row_len:\n                # Row too short. Pad it."),
+    Benign('pad-size-by-max-of-list', MK, "        max_columns = 0\n        total_rows = len(matrix)\n\n        for row in matrix:\n            max_columns = max(max_columns, len(row))\n",
+           "        total_rows = len(matrix)\n        max_columns = max([0] + [len(row) for row in matrix])\n"),
+    Benign('step6-counter-by-xor', MK, "                if self.row_covered[i]:\n                    self.C[i][j] += minval\n                    events += 1\n                if not self.col_covered[j]:\n                    self.C[i][j] -= minval\n                    events += 1\n                if self.row_covered[i] and not self.col_covered[j]:\n                    events -= 2 # change reversed, no real difference\n",
+           "                if self.row_covered[i]:\n                    self.C[i][j] += minval\n                if not self.col_covered[j]:\n                    self.C[i][j] -= minval\n                if self.row_covered[i] != (not self.col_covered[j]):\n                    events += 1\n"),
     Benign('step6-by-cases', MK, "                if self.row_covered[i]:\n                    self.C[i][j] += minval\n                    events += 1\n                if not self.col_covered[j]:\n                    self.C[i][j] -= minval\n                    events += 1\n                if self.row_covered[i] and not self.col_covered[j]:\n                    events -= 2 # change reversed, no real difference\n",
            "                if self.row_covered[i] and self.col_covered[j]:\n                    self.C[i][j] += minval\n                    events += 1\n                elif not self.row_covered[i] and not self.col_covered[j]:\n                    self.C[i][j] -= minval\n                    events += 1\n"),
     Benign('find-smallest-de-morgan', MK, "                if (not self.row_covered[i]) and (not self.col_covered[j]):\n                    if self.C[i][j] is not DISALLOWED and minval >",
